@@ -488,7 +488,7 @@ func mkSystem(t tree, w, focus string, depth int) *hist.System {
 		names = append(names, o.name)
 	}
 	return &hist.System{
-		Name: fmt.Sprintf("%s/%s/%s", focus, t.name, w), Alphabet: names, Merge: true, MaxDepth: depth,
+		Name: fmt.Sprintf("%s/%s/%s", focus, t.name, w), Alphabet: names, Merge: true, MaxDepth: depth, Shallow: 20000,
 		New: func() hist.Instance { return newInst(ops, t, w) },
 	}
 }
@@ -503,6 +503,9 @@ func main() {
 				quick := wi == ti%len(wrappers) || wi == (ti+2)%len(wrappers)
 				p := hist.Part(fmt.Sprintf("%s/%s/%s", focus, t.name, w), func(c *cli.Ctx) []*hist.System {
 					d := 4
+					if focus == "batch" {
+						d = 5 // stored key, open batch, two batch operations on it, Commit
+					}
 					if c.Thorough() {
 						d = 6
 					}
@@ -515,7 +518,7 @@ func main() {
 	}
 	cli.Main(&cli.Property{
 		ID: "C04", Level: "model_checking", Parts: parts, QuickSecs: 50, ThoroughSecs: 900,
-		Rule: "breadth-first explicit-state search over all histories of mutating operations issued through 3 views of one mapdb (6 view trees x 5 wrapper stacks; kv focus: Set/Delete/DeletePrefix/Clear/Close, batch focus: Set/Delete/Batched/b.Set/b.Delete/Commit/Cancel/Flush/Close), states merged on the model state; after every step every read (Get/Has/Iterate/IterateKeys with 4 prefixes x 2 directions x stop-after-1/none, Realm, and the whole contents through the unwrapped root) is compared with one ordered map keyed by realm||key, and every caller buffer is overwritten after the call returned",
+		Rule: "breadth-first explicit-state search over all histories (quick: 4 steps, batch focus 5; thorough: 6) of mutating operations issued through 3 views of one mapdb (6 view trees x 5 wrapper stacks; kv focus: Set/Delete/DeletePrefix/Clear/Close, batch focus: Set/Delete/Batched/b.Set/b.Delete/Commit/Cancel/Flush/Close), states merged on the model state; after every step every read (Get/Has/Iterate/IterateKeys with 4 prefixes x 2 directions x stop-after-1/none, Realm, and the whole contents through the unwrapped root) is compared with one ordered map keyed by realm||key, and every caller buffer is overwritten after the call returned",
 		Assumptions: []string{
 			"merging on the model state is sound because after every step the complete contents and every read result of every view are compared with the model",
 			"a batch Set keeps the caller's value slice until Commit (mutation between batch Set and Commit is outside the statement and not exercised)",
